@@ -109,7 +109,7 @@ def run_shard(ctx):
     concrete = U.concrete()
     from vlib.universe import warm_up
 
-    ctx.extra["first_use_order"] = warm_up(U, ctx.rng("warm-up"))[:6]
+    ctx.extra["first_use_order"] = warm_up(U, ctx.rng("warm-up"), ctx)[:6]
     all_names = list(U.order) + ["ASTNode"]
 
     # ------------------------------------------------------------------ validate=True
